@@ -26,6 +26,15 @@ const (
 	VerifRoot = "/verif"
 )
 
+// RepoRoot is the source tree the binary was built against (/repo unless a
+// scratch copy is being tried through VERIF_REPO).
+func RepoRoot() string {
+	if p := os.Getenv("VERIF_REPO"); p != "" {
+		return p
+	}
+	return "/repo"
+}
+
 // Finding is one line of known_findings.jsonl.
 type Finding struct {
 	Status   string `json:"status"` // "known" | "fixed"
@@ -108,11 +117,16 @@ func Start(id, level string) *Run {
 }
 
 func (r *Run) loadKnown() {
-	b, err := os.ReadFile(filepath.Join(VerifRoot, "known_findings.jsonl"))
-	if err != nil {
-		return
+	var all []byte
+	files, _ := filepath.Glob(filepath.Join(VerifRoot, "known_findings.d", "*.jsonl"))
+	files = append([]string{filepath.Join(VerifRoot, "known_findings.jsonl")}, files...)
+	for _, f := range files {
+		if b, err := os.ReadFile(f); err == nil {
+			all = append(all, b...)
+			all = append(all, '\n')
+		}
 	}
-	for _, line := range strings.Split(string(b), "\n") {
+	for _, line := range strings.Split(string(all), "\n") {
 		line = strings.TrimSpace(line)
 		if line == "" || strings.HasPrefix(line, "#") {
 			continue
